@@ -44,7 +44,14 @@ pub struct Source {
 
 impl Source {
     pub fn new(rng: &mut Rng, signalling: bool) -> Self {
-        let labels = vec![gen_label(rng, 0), gen_label(rng, 2), gen_label(rng, 3), Label::Broadcast, gen_label(rng, 1)];
+        let mut labels = vec![gen_label(rng, 0), gen_label(rng, 2), gen_label(rng, 3), Label::Broadcast, gen_label(rng, 1)];
+        // labels that share their leading bytes across label types (3-byte label = first half of a 6-byte one)
+        if let Label::SixBytesLabel(b) = labels[0] {
+            labels.push(Label::ThreeBytesLabel([b[0], b[1], b[2]]));
+        }
+        if let Label::ThreeBytesLabel(b) = labels[1] {
+            labels.push(Label::SixBytesLabel([b[0], b[1], b[2], rng.byte(), rng.byte(), 1 | rng.byte()]));
+        }
         Source { enc: Encapsulator::new(DefaultCrc {}), active: Vec::new(), labels, signalling }
     }
 
@@ -109,6 +116,17 @@ impl Source {
                     let id = 0x0300 | rng.below(256) as u16;
                     let d = rng.bytes(4);
                     (gen_user_ptype(rng), Extension::new(id, &d).ok().map(|e| vec![e]))
+                } else if rng.chance(1, 12) {
+                    // a long chain (extension area larger than what may be left of the PDU)
+                    let mut v = Vec::new();
+                    for _ in 0..(2 + rng.below(3)) {
+                        let h = 2 + rng.below(4);
+                        let d = rng.bytes(2 * h - 2);
+                        if let Ok(e) = Extension::new(((h as u16) << 8) | rng.byte() as u16, &d) {
+                            v.push(e);
+                        }
+                    }
+                    (gen_user_ptype(rng), if v.is_empty() { None } else { Some(v) })
                 } else {
                     (gen_user_ptype(rng), None)
                 };
@@ -174,7 +192,7 @@ pub fn gens(cx: &Cx) -> Vec<crate::Gen> {
     vec![crate::Gen { name: "frames", count: cx.n(12_000, 1_200_000), exhaustive: false }, crate::Gen { name: "tails", count: cx.n(20_000, 1_000_000), exhaustive: false }]
 }
 
-pub const RULE: &str = "frames: key -> a seeded traffic source (real encapsulator, up to 4 PDUs in flight on fragment ids distinct modulo the 4 memory slots, PDUs of 0..6000 bytes, labels from a 5-label alphabet plus explicit re-use, optional extensions, signalling protocol types 0x0081/0x0082 when the receiver uses the signalisation manager) fills 1..6 consecutive frames of 64..16200 bytes with up to 40 packets each (trains continue across frames, label memories reset at frame boundaries on both sides), followed by 0..64 zero bytes; some packets are then corrupted in a listed way (bad CRC trailer, unknown fragment id) and receivers sometimes have too little storage; a walker receiver advances by consumed lengths, a twin receiver gets each packet alone. tails: one packet (after its train prefix) followed by nothing / zeros / 0xFF / random bytes / another packet on identically prepared receivers. Every decap / peek call is an evaluation; non-trivial = a frame with at least 2 packets (or a tail variant set) fully compared; fingerprint = hash of the frame bytes.";
+pub const RULE: &str = "frames: key -> a seeded traffic source (real encapsulator, up to 4 PDUs in flight on fragment ids distinct modulo the 4 memory slots, PDUs of 0..6000 bytes, labels from a 7-label alphabet (incl. 3- and 6-byte labels sharing their leading bytes) plus explicit re-use, optional extensions, signalling protocol types 0x0081/0x0082 when the receiver uses the signalisation manager) fills 1..6 consecutive frames of 64..16200 bytes with up to 40 packets each (trains continue across frames, label memories reset at frame boundaries on both sides), followed by 0..64 zero bytes (one frame in ten: 4090..9000 zero bytes); some packets are then corrupted in a listed way (bad CRC trailer, another fragment id incl. ids mapping to the same memory slot) and receivers sometimes have too little storage; a walker receiver advances by consumed lengths, a twin receiver gets each packet alone. tails: one packet (after its train prefix) followed by nothing / zeros / 0xFF / random bytes / another packet on identically prepared receivers. Every decap / peek call is an evaluation; non-trivial = a frame with at least 2 packets (or a tail variant set) fully compared; fingerprint = hash of the frame bytes.";
 
 pub fn run_key(cx: &Cx, mask: u32, gen: &str, key: u64, rep: &mut Report) {
     let replay_s = format!("gen={} key={} seed={} profile={}", gen, key, cx.seed, cx.profile);
@@ -210,14 +228,17 @@ pub fn run_key(cx: &Cx, mask: u32, gen: &str, key: u64, rep: &mut Report) {
                                 inf.corrupted = Some("bad-crc");
                             }
                             Kind::Inter | Kind::End => {
-                                frame[inf.off + 2] = frame[inf.off + 2].wrapping_add(1 + rng.below(3) as u8);
+                                // another fragment id: a neighbour, or one that maps to the same memory slot (4 slots)
+                                let delta = if rng.chance(1, 2) { 1 + rng.below(3) as u8 } else { 4 * (1 + rng.below(8)) as u8 };
+                                frame[inf.off + 2] = frame[inf.off + 2].wrapping_add(delta);
                                 inf.corrupted = Some("other-frag-id");
                             }
                             _ => {}
                         }
                     }
                 }
-                let pad = rng.below(65);
+                // 0..64 padding bytes, sometimes a mostly empty frame (thousands of zero bytes)
+                let pad = if rng.chance(1, 10) { rng.range(4090, 9000) } else { rng.below(65) };
                 frame.extend(std::iter::repeat(0u8).take(pad));
                 walker.reset_last_label();
                 twin.reset_last_label();
